@@ -21,7 +21,9 @@ impl Labels {
 	fn get_or_add_unchecked(&mut self, pc: u16) -> &mut Label {
 		self.labels.entry(pc).or_insert_with(|| {
 			let label = Label { id: self.max_id };
-			self.max_id += 1;
+			// every bytecode offset 0..=65535 can carry a label, so the last possible one gets the id 65535;
+			// there's no next id to compute after that one
+			self.max_id = self.max_id.saturating_add(1);
 			label
 		})
 	}
